@@ -20,7 +20,8 @@ pub mod grp {
     pub const WALK: u32 = 1 << 6;
     pub const VALUE: u32 = 1 << 7; // clone / eq / hash / second run
     pub const EXTRA_ENTRY: u32 = 1 << 8; // &String, TypedParser::*
-    pub const ALL: u32 = (1 << 9) - 1;
+    pub const PAIRS: u32 = 1 << 9; // results through several windows of one string, compared pairwise
+    pub const ALL: u32 = (1 << 10) - 1;
 }
 
 pub struct Inputs<'i> {
@@ -362,7 +363,7 @@ where
             out.span = Some(form::<R, T, Span<'i>>(sp, &x, lite, inp.budget));
         }
     }
-    if g & grp::VALUE != 0 && g & grp::FORMS != 0 {
+    if g & grp::PAIRS != 0 {
         // results through different sub-ranges of ONE string object: equal iff structurally identical
         let r = catch_unwind(AssertUnwindSafe(|| {
             let p = inp.span_parent;
